@@ -11,7 +11,7 @@ RULE = ("Hypothesis draws a valid stream (same two sources as C08: SVT encoder, 
         "settings threads in 2..16 x is_16bit_pipeline x a schedule stressor (CPU affinity squeeze to 2-4 cores, at most 4 threads per core via taskset so that 16 decoder threads preempt each other inside their spin-wait regions; "
         "H1 perturbation string for the mutex/semaphore wrappers the decoder does use). Half of the cases run on the ASan build (every packet in an exact-size heap buffer, so any over-read is visible), "
         "LeakSanitizer at exit. Oracle: every multi-threaded run returns exactly the pictures of the 1-thread decode of the same stream (which C08 ties to "
-        "libaom/dav1d; here the libaom decode is also compared), no decoder error, no ASan/LSan report, deinit + deinit_handle return, the process exits; a run exceeding 90 s (normal: 0.1-3 s) is a hang candidate and must "
+        "libaom/dav1d; here the libaom decode is also compared), no decoder error, no ASan/LSan report, deinit + deinit_handle return, the process exits; a run exceeding 45 s (normal: 0.1-3 s) is a hang candidate and must "
         "reproduce in 2 of 3 replays. non-trivial = threads >= 2 and the stream has >= 2 tiles or >= 4 SB rows, and >= 2 multi-threaded settings completed; distinct = sha256(stream) x settings.")
 ASSUMPTIONS = ["the data-race clause is NOT decided: the decoder synchronises through volatile spin flags that ThreadSanitizer does not model (thousands of reports on the unchanged tree, no signal); "
                "what is decided: equality with the single-thread result under preemption stress, memory safety (ASan), leaks (LSan), termination and teardown",
@@ -71,7 +71,7 @@ def strategy(tier):
     return s()
 
 
-def _decode(tu, wd, tag, variant, threads, is16, cpus=0, sched=None, timeout=90):
+def _decode(tu, wd, tag, variant, threads, is16, cpus=0, sched=None, timeout=45):
     env = {}
     if sched:
         env["SVT_VERIF_SCHED"] = sched
@@ -139,8 +139,8 @@ def run_case(case, tier):
             r = _decode(tu, wd, "mt%d" % i, variant, rn["threads"], rn["is16"], rn["cpus"], rn["sched"])
             tag = "threads=%d is16=%d cpus=%s sched=%s" % (rn["threads"], rn["is16"], rn["cpus"], rn["sched"])
             if r.exit == -999:
-                viol.append(dict(key="C09|hang", what="multi-threaded decode did not finish within 90 s (%s)" % tag))
-                continue
+                viol.append(dict(key="C09|hang", what="multi-threaded decode did not finish within 45 s (%s)" % tag))
+                break       # one hang per case is enough (each costs the full time limit)
             if r.san:
                 rep = r.san[0]
                 viol.append(dict(key="C09|sanitizer|%s|%s" % (rep["kind"], rep["frame"]), what="%s: %s" % (tag, rep["line"])))
